@@ -13,7 +13,14 @@ import (
 	"fmt"
 	"math/rand"
 	"os"
+	"path/filepath"
+	"sort"
 	"testing"
+	"time"
+
+	"github.com/go-kit/log"
+	"go.universe.tf/metallb/internal/bgp"
+	"go.universe.tf/metallb/internal/logging"
 )
 
 func vBuildSM(ss []vSess, order []int) *sessionManager {
@@ -144,4 +151,284 @@ func TestVerifFrr(t *testing.T) {
 			out.Stat("multi_neighbor", 1)
 		}
 	}
+}
+
+// ---------------------------------------------------------------------------
+// Histories through the real API: NewSession / Set / Close on a session manager
+// whose reload channel is captured (no timers), and a few through the exported
+// NewSessionManager with the real debouncer writing the real file.  Property:
+// the configuration the manager ends up with is a function of the SET of
+// sessions and their current advertisements - it equals the configuration of a
+// fresh manager given only the final sets - and offers exactly what is requested
+// (the final text goes through the same parser / Coq / oracle as the other cases).
+
+type vHistOp struct {
+	Kind string `json:"kind"` // new set close
+	Sess int    `json:"sess"`
+	Advs []vAdv `json:"advs,omitempty"`
+}
+
+type vHist struct {
+	Base []vSess   `json:"base"` // session parameters (Advs ignored)
+	Ops  []vHistOp `json:"ops"`
+}
+
+func vCopyAdvs(a []vAdv) []vAdv {
+	out := make([]vAdv, len(a))
+	for i, x := range a {
+		out[i] = vAdv{Prefix: x.Prefix, LP: x.LP, Comms: append([]string{}, x.Comms...)}
+	}
+	return out
+}
+
+// a variation of an advertisement list that keeps one local preference per prefix
+func vMutateAdvs(r *rand.Rand, cur []vAdv) []vAdv {
+	out := vCopyAdvs(cur)
+	dupIdx := func() []int { // indexes of entries whose prefix occurs again LATER (non-last duplicates)
+		var idx []int
+		for i := range out {
+			for j := i + 1; j < len(out); j++ {
+				if out[j].Prefix == out[i].Prefix {
+					idx = append(idx, i)
+					break
+				}
+			}
+		}
+		return idx
+	}
+	newComms := func() []string {
+		var cs []string
+		for k, n := 0, 1+r.Intn(2); k < n; k++ {
+			c := vComms[r.Intn(len(vComms))]
+			if r.Intn(3) == 0 {
+				c = vLarge[r.Intn(len(vLarge))]
+			}
+			dup := false
+			for _, x := range cs {
+				dup = dup || x == c
+			}
+			if !dup {
+				cs = append(cs, c)
+			}
+		}
+		return cs
+	}
+	switch k := r.Intn(8); {
+	case k <= 1 && len(dupIdx()) > 0: // remove a non-last duplicate
+		d := dupIdx()
+		i := d[r.Intn(len(d))]
+		out = append(out[:i], out[i+1:]...)
+	case k <= 3 && len(dupIdx()) > 0: // change the communities of a non-last duplicate
+		d := dupIdx()
+		out[d[r.Intn(len(d))]].Comms = newComms()
+	case k <= 5 && len(out) > 0: // add a duplicate of an existing prefix IN FRONT, with other communities
+		x := out[r.Intn(len(out))]
+		out = append([]vAdv{{Prefix: x.Prefix, LP: x.LP, Comms: newComms()}}, out...)
+	case k == 6 && len(out) > 0: // drop any entry
+		i := r.Intn(len(out))
+		out = append(out[:i], out[i+1:]...)
+	default:
+		out = vGenAdvs(r, false)
+	}
+	return out
+}
+
+func vGenHist(r *rand.Rand) vHist {
+	h := vHist{Base: vGenSessions(r, false)}
+	cur := make([][]vAdv, len(h.Base))
+	alive := make([]bool, len(h.Base))
+	for i := range h.Base {
+		h.Ops = append(h.Ops, vHistOp{Kind: "new", Sess: i})
+		alive[i] = true
+		if len(h.Base[i].Advs) > 0 || r.Intn(2) == 0 {
+			h.Ops = append(h.Ops, vHistOp{Kind: "set", Sess: i, Advs: vCopyAdvs(h.Base[i].Advs)})
+			cur[i] = vCopyAdvs(h.Base[i].Advs)
+		}
+	}
+	for k, n := 0, 2+r.Intn(5); k < n; k++ {
+		i := r.Intn(len(h.Base))
+		switch {
+		case !alive[i]:
+			h.Ops = append(h.Ops, vHistOp{Kind: "new", Sess: i})
+			alive[i], cur[i] = true, nil
+		case r.Intn(8) == 0 && len(h.Base) > 1:
+			h.Ops = append(h.Ops, vHistOp{Kind: "close", Sess: i})
+			alive[i], cur[i] = false, nil
+		default:
+			cur[i] = vMutateAdvs(r, cur[i])
+			h.Ops = append(h.Ops, vHistOp{Kind: "set", Sess: i, Advs: vCopyAdvs(cur[i])})
+		}
+	}
+	return h
+}
+
+func vCorpusHist() []vHist {
+	base := vSess{MyASN: 100, RouterID: "10.1.1.254", PeerAddr: "10.2.2.254", PeerASN: 200, Port: 179, Hold: -1, Keep: -1, Connect: -1}
+	p, q := "172.16.1.10/32", "172.16.1.11/32"
+	return []vHist{{Base: []vSess{base}, Ops: []vHistOp{
+		{Kind: "new", Sess: 0},
+		{Kind: "set", Sess: 0, Advs: []vAdv{{Prefix: p, Comms: []string{"65000:100"}}, {Prefix: p, Comms: []string{"65000:200"}}, {Prefix: q, Comms: []string{}}}},
+		// one of the two advertisements of p goes away; the last entry per prefix is unchanged
+		{Kind: "set", Sess: 0, Advs: []vAdv{{Prefix: p, Comms: []string{"65000:200"}}, {Prefix: q, Comms: []string{}}}},
+		{Kind: "set", Sess: 0, Advs: []vAdv{{Prefix: p, Comms: []string{"large:64512:1:2"}}, {Prefix: p, Comms: []string{"65000:200"}}, {Prefix: q, Comms: []string{}}}},
+	}}}
+}
+
+type vHistStep struct {
+	Final []vSess `json:"final"`
+	Text  string  `json:"text"`
+	OK    bool    `json:"ok"`
+}
+
+// runs the history; apply(op) drives the real manager, current() returns the text of the configuration it ended up with
+func vRunHist(out *vOut, h vHist, sm *sessionManager, current func(want string) (string, bool), tag string) (final []vSess, text string, ok bool, bad bool) {
+	sessions := make([]bgp.Session, len(h.Base))
+	state := make([][]vAdv, len(h.Base))
+	alive := make([]bool, len(h.Base))
+	for step, op := range h.Ops {
+		switch op.Kind {
+		case "new":
+			s, err := sm.NewSession(log.NewNopLogger(), vParams(h.Base[op.Sess]))
+			if err != nil {
+				out.Fail("frr-history-api-error", fmt.Sprintf("%s: NewSession failed at step %d: %v", tag, step, err), h)
+				return nil, "", false, true
+			}
+			sessions[op.Sess], alive[op.Sess], state[op.Sess] = s, true, nil
+		case "set":
+			b := h.Base[op.Sess]
+			b.Advs = op.Advs
+			if err := sessions[op.Sess].Set(vAdvertisements(b)...); err != nil {
+				out.Fail("frr-history-api-error", fmt.Sprintf("%s: Set failed at step %d: %v", tag, step, err), h)
+				return nil, "", false, true
+			}
+			state[op.Sess] = vCopyAdvs(op.Advs)
+		case "close":
+			if err := sessions[op.Sess].Close(); err != nil {
+				out.Fail("frr-history-api-error", fmt.Sprintf("%s: Close failed at step %d: %v", tag, step, err), h)
+				return nil, "", false, true
+			}
+			alive[op.Sess], state[op.Sess] = false, nil
+		}
+		// what a fresh manager renders for the current sets
+		var cur []vSess
+		for i, b := range h.Base {
+			if alive[i] {
+				b.Advs = vCopyAdvs(state[i])
+				cur = append(cur, b)
+			}
+		}
+		ident := make([]int, len(cur))
+		for i := range ident {
+			ident[i] = i
+		}
+		want, wantOK := vRenderText(cur, ident)
+		got, gotOK := current(want)
+		if got != want || gotOK != wantOK {
+			out.Fail("frr-history-dependent", fmt.Sprintf("%s: after step %d (%s session %d) the manager's configuration differs from the configuration of a fresh manager given the same sessions and advertisements",
+				tag, step, op.Kind, op.Sess), map[string]any{"history": h, "step": step, "sessions_now": cur, "text_of_manager": got, "text_of_fresh_manager": want})
+			bad = true
+		}
+		final, text, ok = cur, got, gotOK
+	}
+	return final, text, ok, bad
+}
+
+func TestVerifFrrHist(t *testing.T) {
+	out := vOpen()
+	defer out.Close()
+	osHostname = func() (string, error) { return "verifhost", nil }
+	os.Unsetenv("FRR_LOGGING_LEVEL")
+	r := vRand()
+	n := vN(60)
+	hs := vCorpusHist()
+	for len(hs) < n {
+		hs = append(hs, vGenHist(r))
+	}
+	id := 100000
+	for _, h := range hs {
+		// (a) captured reload channel: every NewSession / Set / Close hands its configuration to the debouncer here
+		sm := &sessionManager{sessions: map[string]*session{}, bfdProfiles: []BFDProfile{}, reloadConfig: make(chan reloadEvent, 256), logLevel: "informational"}
+		var last *frrConfig
+		current := func(string) (string, bool) {
+			for {
+				select {
+				case ev := <-sm.reloadConfig:
+					if !ev.useOld {
+						last = ev.config
+					}
+					continue
+				default:
+				}
+				break
+			}
+			if last == nil {
+				return "", false
+			}
+			txt, err := templateConfig(last)
+			return txt, err == nil
+		}
+		final, text, ok, _ := vRunHist(out, h, sm, current, "captured reload channel")
+		nset, ndupdrop := 0, 0
+		for _, op := range h.Ops {
+			if op.Kind == "set" {
+				nset++
+			}
+			if op.Kind == "close" {
+				out.Stat("hist_close", 1)
+			}
+		}
+		_ = ndupdrop
+		out.Stat("histories", 1)
+		out.Stat("hist_set_ops", nset)
+		for _, s := range final {
+			seen := map[string]bool{}
+			for _, a := range s.Advs {
+				if seen[a.Prefix] {
+					out.Stat("hist_final_repeated_prefix", 1)
+				}
+				seen[a.Prefix] = true
+			}
+		}
+		if final != nil {
+			id++
+			perm := vPermute(r, final)
+			out.Case(id, "frr-history", cPair(cSessList(final), cSessList(perm)), map[string]any{"sessions": final, "text": text, "ok": ok, "history": h})
+		}
+	}
+	// (b) the exported path with the real debouncer and the real file
+	dir, err := os.MkdirTemp("", "verif-frr-hist")
+	if err != nil {
+		t.Fatal(err)
+	}
+	defer os.RemoveAll(dir)
+	debounceTimeout = time.Millisecond
+	failureTimeout = 5 * time.Millisecond
+	reloadConfig = func() error { return nil }
+	ne := 4
+	if vThorough() {
+		ne = 25
+	}
+	for k := 0; k < ne && k < len(hs); k++ {
+		path := filepath.Join(dir, fmt.Sprintf("frr-%d.conf", k))
+		os.Setenv("FRR_CONFIG_FILE", path)
+		smi := NewSessionManager(log.NewNopLogger(), logging.LevelInfo)
+		sm := smi.(*sessionManager)
+		current := func(want string) (string, bool) {
+			// the debouncer writes 1 ms after the last change; wait (at most 3 s) for the expected content
+			var got string
+			for i := 0; i < 1000; i++ {
+				b, _ := os.ReadFile(path)
+				got = string(b)
+				if got == want {
+					break
+				}
+				time.Sleep(3 * time.Millisecond)
+			}
+			return got, got != ""
+		}
+		vRunHist(out, hs[k], sm, current, "NewSessionManager + debouncer + file")
+		out.Stat("histories_through_debouncer_and_file", 1)
+	}
+	os.Unsetenv("FRR_CONFIG_FILE")
+	_ = sort.Strings
 }
